@@ -800,9 +800,10 @@ PATHS = ["a.txt", "src/main.rs", "dir with space/file name.py", "dëep/päth/ün
 FRAGS = ["", " fn foo()", " class Bar", " impl<T> X for Y {", "   ", " @ at", " def f(x, y)"]
 
 
-def gen_diff(rng, blank_ctx=False, wide=True):
+def gen_diff(rng, blank_ctx=False, wide=True, colour=0.0):
     """A multi-file, multi-hunk two-way diff in git format plus the truth about it."""
     files, text = [], []
+    raw_lines = 0
     paths = rng.sample(PATHS, rng.randint(1, 3))
     for path in paths:
         mode = rng.choice(["mod", "mod", "mod", "rename", "add", "del"])
@@ -877,6 +878,16 @@ def gen_diff(rng, blank_ctx=False, wide=True):
                     # line is written as an empty line. (kept with its body for the control run)
                     text.append(("blank", k + body))
                     truth[-1] = (" ", truth[-1][1], truth[-1][2], "", tok)
+                elif colour and rng.random() < colour:
+                    # git-coloured input: moved-line colours (non-default, so the raw line is kept in the
+                    # state: HunkMinus/HunkPlus/HunkZero(_, Some(raw))), sometimes git's default colours
+                    # (not kept raw), in git's own layout "<sgr><marker><reset><sgr>body<reset>" or one span
+                    sgr = rng.choice({"-": ["1;35", "1;34", "31"], "+": ["1;36", "1;33", "32"], " ": ["2", "1;35"]}[k])
+                    if rng.random() < 0.5:
+                        text.append(f"\x1b[{sgr}m{k}\x1b[m\x1b[{sgr}m{body}\x1b[m")
+                    else:
+                        text.append(f"\x1b[{sgr}m{k}{body}\x1b[m")
+                    raw_lines += 1
                 else:
                     text.append(k + body)
             if rng.random() < 0.15:
@@ -1061,12 +1072,21 @@ def make_binary_cases(ctx, count):
     cases = []
     for i in range(count):
         blank = (i % 25 == 24)
-        diff, files, control = gen_diff(rng, blank_ctx=blank, wide=rng.random() < 0.5)
+        # lines kept raw in the hunk states: by style (`raw`) or because the input carries colours
+        rawmode = None if blank else rng.choice([None, None, None, "colour", "colour", "minus", "plus", "zero", "minus+plus", "all"])
+        diff, files, control = gen_diff(rng, blank_ctx=blank, wide=rng.random() < 0.5,
+                                        colour=(rng.choice([0.3, 0.6, 1.0]) if rawmode == "colour" else 0.0))
         base = ["--no-gitconfig", "--paging=never", "--hunk-header-style=file line-number", "--hunk-header-decoration-style=none",
                 "--hunk-label=HUNK@"]
         lbs = rng.choice([32, 32, 0, 1, 2, 3])
         if lbs != 32:
             base.append(f"--line-buffer-size={lbs}")
+        if rawmode == "colour":
+            base.append("--inspect-raw-lines=true")
+        elif rawmode:
+            for side in ("minus", "plus", "zero"):
+                if side in rawmode or rawmode == "all":
+                    base.append(f"--{side}-style=raw")
         for sbs in (False, True):
             custom = rng.random() < 0.6 and not blank     # empty-context-line inputs: default formats
             fl, fr = (gen_fmt(rng, "nm"), gen_fmt(rng, "np")) if custom else DEFAULT_FMTS[sbs]
@@ -1074,9 +1094,10 @@ def make_binary_cases(ctx, count):
             args = list(base) + ([f"--width={width}", "-s", "--wrap-max-lines=" + rng.choice(["unlimited", "2", "4", "0"])] if sbs else ["-n", f"--width={width}"])
             if custom:
                 args += ["--line-numbers-left-format=" + fl.text(), "--line-numbers-right-format=" + fr.text()]
-            if rng.random() < 0.2:
+            if rng.random() < 0.2 and not rawmode:
                 args.append("--keep-plus-minus-markers")
-            cases.append(dict(id=i, args=args, diff=diff, files=files, sbs=sbs, fl=fl, fr=fr, width=width, blank=blank, lbs=lbs, control=control))
+            cases.append(dict(id=i, args=args, diff=diff, files=files, sbs=sbs, fl=fl, fr=fr, width=width, blank=blank, lbs=lbs, control=control,
+                              rawmode=rawmode))
     return cases
 
 
@@ -1096,6 +1117,8 @@ def eval_binary(ctx, rep, cases, mdl):
         rep.case(key=("binary", view, tuple(case["args"]), case["diff"]), nontrivial=(nh >= 2 and nl >= 4),
                  sample=dict(op="binary", args=case["args"], diff=case["diff"][:600]) if case["id"] % 97 == 3 and not case["sbs"] else None)
         rep.count(f"binary:{view}")
+        if case.get("rawmode"):
+            rep.count(f"binary:raw-lines:{case['rawmode']}:{view}")
         lk = [q[1] for q in case["fl"].parts if q[0] == "ph"]
         rk = [q[1] for q in case["fr"].parts if q[0] == "ph"]
         for cond, name in (("np" in lk, "np-in-left-format"), ("nm" in rk, "nm-in-right-format"),
